@@ -48,7 +48,7 @@ def has_sym(x):
     if isinstance(x, _np.ndarray):
         if x.dtype != object:
             return False
-        return any(is_sym(v) or isinstance(v, GenArr) for v in x.flat)
+        return any(is_sym(v) or isinstance(v, GenArr) or (isinstance(v, _np.ndarray) and has_sym(v)) for v in x.flat)
     if _is_xr(x):
         return has_sym(x.values)
     if isinstance(x, (list, tuple)):
@@ -96,8 +96,12 @@ def _unary(name, real_name=None):
             return real_f(concretize(x), *a, **k)
 
         def one(v):
+            if isinstance(v, _np.ndarray) and v.ndim == 0:
+                v = v.item()
             if is_sym(v) or isinstance(v, GenArr):
                 return getattr(v, name)()
+            if isinstance(v, _np.ndarray):
+                return f(v)
             return real_f(v)
         return _emap(one, x)
     f.__name__ = name
